@@ -1,6 +1,11 @@
 import props_ring
 import props_array
+import props_resource
 SPECS = {
+    "C01": props_resource.C01,
+    "C02": props_resource.C02,
+    "C03": props_resource.C03,
+    "C12": props_resource.C12,
     "C04": props_ring.C04,
     "C09": props_ring.C09,
     "C14": props_array.C14,
